@@ -61,6 +61,7 @@ fn main() {
         "C20" => optimal_props::c20(&a),
         "export" => probe_export(&a.out, a.seed as u32),
         "editprobe" => edit_props::probe(&a.out),
+        "streamprobe" => stream_props::probe(&a.out),
         other => { eprintln!("unknown property {other}"); std::process::exit(2); }
     }
 }
